@@ -6,7 +6,9 @@ import (
 	"strings"
 	"time"
 
+	"github.com/google/gopacket"
 	"github.com/scionproto/scion/pkg/addr"
+	"github.com/scionproto/scion/pkg/slayers"
 	"github.com/scionproto/scion/pkg/slayers/path"
 	"github.com/scionproto/scion/pkg/slayers/path/onehop"
 	scionpath "github.com/scionproto/scion/pkg/slayers/path/scion"
@@ -139,7 +141,7 @@ func tagsOf(steps []step, extra ...string) string {
 				set["nts-then-plain-other"] = true
 			}
 		}
-		if s.k == kNTS && (s.a == 0 || s.a == 8) && len(s.data) > 0 && wfFirst(s.data[0]) {
+		if s.k == kNTS && ntsLabelOf(s.a) == ntsYes && len(s.data) > 0 && wfFirst(s.data[0]) {
 			ntsBy[s.sender] = true
 		}
 		switch s.k {
@@ -163,9 +165,18 @@ func tagsOf(steps []step, extra ...string) string {
 		case kParallel:
 			set["parallel"] = true
 			nt = true
+		case kRaw:
+			nt = true
+			set[[]string{"raw-garbage", "raw-scmp-request", "raw-scmp-other"}[s.a%3]] = true
 		case kNTS:
 			nt = true
-			if s.a == 0 || s.a == 8 {
+			if s.a == 12 {
+				set["nts-older-key"] = true
+			}
+			if s.a == 13 {
+				set["nts-expired-key"] = true
+			}
+			if ntsLabelOf(s.a) == ntsYes {
 				if len(s.data) > 0 && wfFirst(s.data[0]) {
 					set["ntsvalid"] = true
 				} else {
@@ -188,8 +199,14 @@ func tagsOf(steps []step, extra ...string) string {
 			if s.hdr.underlay == endhostPort {
 				set["via-endhost-port"] = true
 			}
-			if s.hdr.udpDst != scionPort {
+			if s.hdr.udpDst != scionPort && s.hdr.fwd == 0 && s.k != kRaw {
 				set["wrong-l4-port"] = true
+			}
+			if s.hdr.fwd > 0 {
+				set["forward"] = true
+			}
+			if s.hdr.ext != 0 && s.k != kRaw {
+				set[[]string{"", "ext-e2e", "ext-e2e", "ext-hbh-e2e", "ext-hbh", "ext-e2e"}[s.hdr.ext%6]] = true
 			}
 		}
 	}
@@ -305,6 +322,16 @@ func genHdr(r *lib.Rng) *hdrSpec {
 		h.underlay = endhostPort
 	case 1: // not for this listener: L4 port differs (arrives on the listener's own port: dropped)
 		h.udpDst = uint16(lib.Pick(r, scionPort+1, ipPort, endhostPort, 123))
+	case 2: // for another application on this host, through the end-host port: relayed, not answered
+		h.underlay = endhostPort
+		h.fwd = 1 + r.Intn(nSameAddr)
+		h.udpDst = 1 // replaced by the port of that socket when the packet is built
+	case 3: // through the end-host port and for the end-host port: dropped
+		h.underlay = endhostPort
+		h.udpDst = endhostPort
+	}
+	if r.Intn(3) == 0 {
+		h.ext = uint8(1 + r.Intn(5))
 	}
 	if r.Intn(6) == 0 {
 		h.udpSrc = scionPort // same port on both sides
@@ -389,7 +416,7 @@ func genBurst(r *lib.Rng) []byte {
 	n := 2 + r.Intn(6)
 	for i := 0; i < n; i++ {
 		if r.Intn(6) == 0 {
-			data = append(data, 0xff, 0xff, byte(lib.Pick(r, 0, 0, 1, 2, 3, 5, 8, 9)), firstByte(r))
+			data = append(data, 0xff, 0xff, byte(lib.Pick(r, 0, 0, 1, 2, 3, 5, 8, 9, 12, 13)), firstByte(r))
 			continue
 		}
 		var p []byte
@@ -419,7 +446,7 @@ func genHistory(r *lib.Rng, n int, withHdr bool) []step {
 		case k == 9 && !withHdr:
 			s.k, s.data = kBurst, genBurst(r)
 		case k < 5:
-			s.k, s.a = kNTS, int64(lib.Pick(r, 0, 0, 0, 0, 1, 2, 3, 4, 5, 6, 7, 8, 9, 10, 11))
+			s.k, s.a = kNTS, int64(lib.Pick(r, 0, 0, 0, 12, 1, 2, 3, 4, 5, 6, 7, 8, 9, 10, 11, 12, 13))
 			s.data = []byte{firstByte(r)}
 		default:
 			s.k = kLiteral
@@ -467,7 +494,7 @@ func genNTSThenPlain(r *lib.Rng, withHdr bool, maxOthers int) []step {
 	if r.Intn(3) == 0 { // the socket is already known to the listener as a plain client
 		add(step{sender: a, k: kLiteral, data: plain()}, true)
 	}
-	add(step{sender: a, k: kNTS, a: int64(lib.Pick(r, 0, 0, 0, 8)), data: []byte{lib.Pick(r, validFirst...)}}, true)
+	add(step{sender: a, k: kNTS, a: int64(lib.Pick(r, 0, 0, 12, 8)), data: []byte{lib.Pick(r, validFirst...)}}, true)
 	add(step{sender: a, k: kLiteral, data: plain()}, true)
 	n := 4 + r.Intn(maxOthers)
 	first, stride := r.Intn(nSocks), lib.Pick(r, 1, 3, 5, 7, 11, 13)
@@ -478,12 +505,73 @@ func genNTSThenPlain(r *lib.Rng, withHdr bool, maxOthers int) []step {
 			p, _ := genPayload(r)
 			add(step{sender: snd, k: kLiteral, data: p}, false)
 		case 1: // another NTS request, valid or damaged, on some goroutine
-			add(step{sender: snd, k: kNTS, a: int64(lib.Pick(r, 0, 0, 1, 2, 5, 8)), data: []byte{lib.Pick(r, validFirst...)}}, false)
+			add(step{sender: snd, k: kNTS, a: int64(lib.Pick(r, 0, 12, 1, 2, 5, 8, 13)), data: []byte{lib.Pick(r, validFirst...)}}, false)
 		default:
 			add(step{sender: snd, k: kLiteral, data: plain()}, false)
 		}
 	}
 	add(step{sender: a, k: kLiteral, data: plain()}, true)
+	return steps
+}
+
+// genRaw: datagrams for the SCION ports that are no SCION/UDP packets: garbage of many
+// shapes and SCMP messages.  Each is followed by a sentinel from the same socket (so on the
+// goroutine that got the datagram); more of them than a port has goroutines.
+func genRaw(r *lib.Rng, underlay uint16) []step {
+	var steps []step
+	reversible := func() *hdrSpec {
+		for {
+			h := genHdr(r)
+			if h.pathType != 2 {
+				h.ext, h.fwd, h.udpDst, h.underlay = 0, 0, scionPort, underlay
+				return h
+			}
+		}
+	}
+	n := 4 + r.Intn(9)
+	for i := 0; i < n; i++ {
+		s := step{sender: r.Intn(nSocks), k: kRaw, a: rawGarbage, hdr: &hdrSpec{underlay: underlay}}
+		switch r.Intn(12) {
+		case 0: // nothing at all / a few bytes
+			s.data = r.Bytes(lib.Pick(r, 0, 1, 2, 4, 11))
+		case 1, 2: // random bytes of many sizes
+			s.data = r.Bytes(lib.Pick(r, 12, 36, 48, 100, 576, 1500, 4000))
+		case 3: // a plain NTP request sent to the SCION port
+			s.data = header(r, lib.Pick(r, validFirst...), 3)
+		case 4: // a valid SCION/UDP request cut off inside its headers
+			b, err := buildSCION(reversible(), header(r, 0x23, 3))
+			if err == nil {
+				s.data = b[:r.Intn(36)]
+			}
+		case 5: // SCION header whose header-length field is wrong (the version field is not checked by
+			// the SCION library, so a damaged version does not make a packet garbage)
+			b, err := buildSCION(reversible(), header(r, 0x23, 3))
+			if err == nil {
+				b[5] = byte(lib.Pick(r, 0, 1, 255))
+				s.data = b
+			}
+		case 6: // SCION packet carrying an upper-layer protocol no listener knows
+			b, err := serializeSCION(reversible(), 6, func(*slayers.SCION) []gopacket.SerializableLayer {
+				return []gopacket.SerializableLayer{gopacket.Payload(r.Bytes(40))}
+			})
+			if err == nil {
+				s.data = b
+			}
+		case 7, 8: // SCMP echo / traceroute request: answered with SCMP, never with NTP
+			b, err := buildSCMP(reversible(), uint8(lib.Pick(r, 128, 130)), r.Bytes(lib.Pick(r, 4, 20, 60)))
+			if err == nil {
+				s.data, s.a = b, rawSCMPReq
+			}
+		case 9, 10: // other SCMP messages (errors, replies)
+			b, err := buildSCMP(reversible(), uint8(lib.Pick(r, 1, 2, 4, 129, 131, 200)), r.Bytes(lib.Pick(r, 4, 20, 60)))
+			if err == nil {
+				s.data, s.a = b, rawSCMPOther
+			}
+		default: // an NTP server reply, bare
+			s.data = header(r, 0x24, 2)
+		}
+		steps = append(steps, s)
+	}
 	return steps
 }
 
@@ -607,7 +695,7 @@ func child(a lib.Args) {
 		nNTS = 40
 	}
 	for rep := 0; rep < nNTS && !d.lost; rep++ {
-		for v := int64(0); v <= 11; v++ {
+		for v := int64(0); v <= 13; v++ {
 			for _, b0 := range []byte{0x23, 0xe3, 0x1b, 0x08, 0x24, 0x63, 0x22, byte(r.Intn(256))} {
 				steps := []step{{sender: r.Intn(nSocks), k: kNTS, a: v, data: []byte{b0}}}
 				d.runIP(tagsOf(steps, "nts"), steps, r)
@@ -663,11 +751,22 @@ func child(a lib.Args) {
 		oneS(r.Intn(nSocks), header(r, lib.Pick(r, validFirst...), 3+r.Intn(2)), genHdr(r), "addressing")
 	}
 	for rep := 0; rep < nNTS && !d.lost; rep++ {
-		for v := int64(0); v <= 11; v++ {
+		for v := int64(0); v <= 13; v++ {
 			for _, b0 := range []byte{0x23, 0xe3, 0x24, 0x22} {
 				steps := []step{{sender: r.Intn(nSocks), k: kNTS, a: v, data: []byte{b0}, hdr: genHdr(r)}}
 				d.runSCION(tagsOf(steps, "nts"), steps, r)
 			}
+		}
+	}
+	// garbage and SCMP on both ports of the SCION listener
+	nRaw := 40
+	if thorough {
+		nRaw = 600
+	}
+	for i := 0; i < nRaw && !d.lost; i++ {
+		for _, port := range []uint16{scionPort, endhostPort} {
+			steps := genRaw(r, port)
+			d.runSCION(tagsOf(steps, "history", "raw"), steps, r)
 		}
 	}
 	nFanS := 40
